@@ -311,6 +311,7 @@ func (fv *FuncVC) primitive(keys []string, c *ssa.CallCommon, args []*Val, resT 
 		switch op {
 		case "Lock":
 			fv.oblige("lock", fmt.Sprintf("no-self-deadlock#%d", n), props, "(= "+held+" 0)", "Lock() while this thread already holds the mutex", fv.posStr(pos))
+			fv.assume("(= " + held + " 0)") // likewise: Lock returns only to a thread that did not hold the mutex
 			fv.heapSet("LOCK", "(Array Int Int)", "(store "+h+" "+id+" (- 1))")
 			fv.onAcquire(args[0], id, true)
 		case "Unlock":
@@ -318,6 +319,8 @@ func (fv *FuncVC) primitive(keys []string, c *ssa.CallCommon, args []*Val, resT 
 			fv.heapSet("LOCK", "(Array Int Int)", "(store "+h+" "+id+" 0)")
 		case "RLock":
 			fv.oblige("lock", fmt.Sprintf("no-self-deadlock#%d", n), props, "(>= "+held+" 0)", "RLock() while this thread write-holds the mutex", fv.posStr(pos))
+			// a thread that write-holds the mutex never returns from RLock: execution continues only with held >= 0
+			fv.assume("(>= " + held + " 0)")
 			fv.heapSet("LOCK", "(Array Int Int)", "(store "+h+" "+id+" (+ "+held+" 1))")
 			fv.onAcquire(args[0], id, false)
 		case "RUnlock":
